@@ -102,7 +102,7 @@ var kNames = []string{"a", "b", "c"}
 var kFilters = []struct {
 	Expr string
 	Gen  bool
-}{{"", false}, {".data", true}, {"{g: .data.gen}", true}, {".metadata.labels", false}, {".data.gen", true}, {"[.data.gen, .metadata.name]", true}}
+}{{"", false}, {".data", true}, {"{g: .data.gen}", true}, {".metadata.labels", false}, {".data.gen", true}, {"[.data.gen, .metadata.name]", true}, {".data.absent", false}, {"select(.metadata.labels.sel == \"x\") | .data.gen", false}}
 
 func genKCase(rng interface{ IntN(int) int }, opts map[string]bool) *kcase {
 	kc := &kcase{}
